@@ -604,7 +604,9 @@ M('recv-D16-shape', ['C01'], Z, "        if min_recv_id > self.prev_id + 1:  # t
 M('vresize-D17-shape', ['C17'], VI, "newsize = (width, max(1, int(h * width / w))) if w > width else (w, h)", "newsize = (width, max(1, int(h * width / w)))", ['C17.R8'])
 M('vresize-general-uses-max', ['C17'], VI, "newsize = (max(1, int(w * (s := min(width / w, height / h)))), max(1, int(h * s)))", "newsize = (max(1, int(w * (s := max(width / w, height / h)))), max(1, int(h * s)))", ['C17.R8'])
 M('vmaxsize-aspect-inverted', ['C17'], VI, "            aspect = aspect != '+'", "            aspect = aspect == '+'", ['C17.R6', 'C17.R8'])
-M('box-x-scaled-by-height', ['C17'], UT, "(int(w * x0), int(h * y0)), (int(w * x1), int(h * y1))", "(int(h * x0), int(w * y0)), (int(w * x1), int(h * y1))", ['C17.R4'])
+M('box-x-scaled-by-height', ['C17'], UT, "        x0 = max(0, min(w, int(w * x0)))  # the box in pixels, clipped to the image, far edges exclusive", "        x0 = max(0, min(w, int(h * x0)))", ['C17.R4'])
+M('box-D49-shape-inclusive-rectangle', ['C17'], UT, "        image[y0 : y1, x0 : x1] = c  # works on any writable array, contiguous or not\n\n        return Frame(image, frame)", "        return Frame(cv2.rectangle(image, (int(w * xform.x), int(h * xform.y)), (int(w * (xform.x + xform.width)), int(h * (xform.y + xform.height))), c, -1), frame)", ['C17.R4'])
+M('box-rows-cols-swapped', ['C17'], UT, "        image[y0 : y1, x0 : x1] = c", "        image[x0 : x1, y0 : y1] = c", ['C17.R4'])
 M('box-far-corner-is-size', ['C17'], UT, "        x1 = (x0 := xform.x) + xform.width", "        x1 = xform.width + 0 * (x0 := xform.x)", ['C17.R4'])
 
 # ------------------------------------------------------------------------------------------------------ round 6 seeds and D18 .. D35 shapes
